@@ -225,15 +225,18 @@ def unspents_case(case):
     except Exception as e:
         return BAD("import", "importable", "EXC %s: %s" % (type(e).__name__, e), clause="import")
     # harness construction (pycoin objects used as data carriers)
-    src = {}
-    for name, outs in SRC.items():
-        src[name] = Tx(1, [Tx.TxIn(hashlib.sha256(b"c13.prev." + name.encode()).digest(), 0)],
-                       [Tx.TxOut(v, bytes.fromhex(s) * 3) for v, s in outs])
-    db = {t.hash(): t for t in src.values()}
-    rec = []
-    for name, idx in sel:
-        o = src[name].txs_out[idx]
-        rec.append([o.coin_value, bytes(o.script), src[name].hash(), idx])
+    try:
+        src = {}
+        for name, outs in SRC.items():
+            src[name] = Tx(1, [Tx.TxIn(hashlib.sha256(b"c13.prev." + name.encode()).digest(), 0)],
+                           [Tx.TxOut(v, bytes.fromhex(s) * 3) for v, s in outs])
+        db = {t.hash(): t for t in src.values()}
+        rec = []
+        for name, idx in sel:
+            o = src[name].txs_out[idx]
+            rec.append([o.coin_value, bytes(o.script), src[name].hash(), idx])
+    except Exception as e:
+        return BAD("construction", "source transactions constructible", "EXC %s: %s" % (type(e).__name__, e), clause="construct")
     differs = False
     kind = disc[0]
     if kind != "none":
@@ -348,9 +351,13 @@ class Unspents(Driver):
 # ---------------------------------------------------------------- conversions
 def convert_check(sat):
     """all conversion observations for one satoshi value; returns None when fine, else BAD"""
-    from pycoin import convention as C
     D = decimal.Decimal
-    for unit, digits, to_f, from_f in (("btc", 8, C.satoshi_to_btc, C.btc_to_satoshi), ("mbtc", 5, C.satoshi_to_mbtc, C.mbtc_to_satoshi)):
+    try:
+        from pycoin import convention as C
+        table = (("btc", 8, C.satoshi_to_btc, C.btc_to_satoshi), ("mbtc", 5, C.satoshi_to_mbtc, C.mbtc_to_satoshi))
+    except Exception as e:
+        return BAD("import", "pycoin.convention importable", "EXC %s: %s" % (type(e).__name__, e), clause="import")
+    for unit, digits, to_f, from_f in table:
         full = money.to_fixed(sat, digits)
         try:
             d = to_f(sat)
